@@ -4,6 +4,7 @@ package main
 // Copies the files into a scratch workspace, starts a server and prints the raw answer.
 
 import (
+	"strings"
 	"encoding/json"
 	"fmt"
 	"os"
@@ -44,6 +45,18 @@ func init() {
 			for u, ds := range srv.View() {
 				for _, d := range ds {
 					fmt.Println(ws.Rel(u), d.Range, d.Message)
+				}
+			}
+			return 0
+		}
+		if args[0] == "workspace/symbol" {
+			for _, q := range strings.Split(args[2], ",") {
+				sy, _, _ := srv.WorkspaceSymbol(q)
+				for _, s := range sy {
+					fmt.Printf("%s -> %s kind=%d container=%s %s@%s\n", q, s.Name, s.Kind, s.ContainerName, ws.Rel(s.Location.URI), s.Location.Range)
+				}
+				if len(sy) == 0 {
+					fmt.Printf("%s -> (nothing)\n", q)
 				}
 			}
 			return 0
